@@ -149,7 +149,8 @@ class Ext:
       expr     f(fn, node, env) -> (g, Ty) | None     expression nodes the core does not know (consulted last)   [srcloop]
       is_none  f(fn, path, g, t, env, k_none, k_some) -> text | None     [srcgate] `p is None` / `p is not None` tests
       raise_stmt [srclabels] f(fn, stmt, env)   accepts (returns) or rejects (Unsupported) a `raise` statement of a pure
-               function; the function's value is then raise_"""
+               function; the function's value is then raise_
+      ([srcrun]: the expr hook is consulted by tr_expr for every node that is not a bound access path)"""
 
     def __init__(self, **kw):
         self.calls, self.methods, self.attrs, self.compare, self.truthy = {}, {}, {}, {}, {}
